@@ -742,7 +742,9 @@ func (sp *sourcePrinter) functions(f *sourceFile) []sourceFunction {
 		// See if we should merge into preceding function.
 		if len(funcs) > 0 {
 			last := funcs[len(funcs)-1]
-			if l-last.end < mergeLimit && last.name == name {
+			// lines is sorted, so l >= last.end; compare as unsigned because the
+			// difference of two (bogus) line numbers can overflow an int.
+			if uint64(l)-uint64(last.end) < mergeLimit && last.name == name {
 				last.end = l + 1
 				last.flat += fn.flat
 				last.cum += fn.cum
@@ -769,7 +771,8 @@ func (sp *sourcePrinter) functions(f *sourceFile) []sourceFunction {
 			}
 		} else {
 			// Find gap from predecessor and divide between predecessor and f.
-			halfGap := (f.begin - funcs[i-1].end) / 2
+			// The gap is not negative, but it can overflow an int: halve it as unsigned.
+			halfGap := int(uint64(f.begin-funcs[i-1].end) / 2)
 			if halfGap > expand {
 				halfGap = expand
 			}
